@@ -5,6 +5,7 @@ import (
 	"encoding/json"
 	"fmt"
 	"os"
+	"strings"
 	"sync/atomic"
 
 	"github.com/willabides/rjson"
@@ -16,6 +17,9 @@ import (
 func init() {
 	Registry["C17"] = c17
 	Replayers["C17/trees"] = func(rp *eng.Replay) (bool, string) {
+		if lv, ok := rp.Extra["hand_built_depth"].(float64); ok {
+			return !handBuiltDeepOK(int(lv)), "hand-built deep tree"
+		}
 		r := eng.NewRun("C17", "quick", 0, os.DevNull, os.TempDir(), os.DevNull)
 		checkCompatTree(r, rp.InputB64)
 		return r.Violations() > 0, fmt.Sprintf("%d violations on this document", r.Violations())
@@ -251,9 +255,59 @@ func c17Trees(r *eng.Run) int {
 			atomic.AddInt64(&collisions, 1)
 		}
 	})
+	// deep trees: the deepest values the decoder produces (and the levels round them), arrays,
+	// objects and mixed, with the invalid bytes in the innermost value / key; plus hand-built
+	// trees deeper than any decoder limit ("at every depth")
+	deepN := 0
+	for _, lv := range []int{100, 9998, 9999, 10000} {
+		for _, wrap := range [][2]string{{"[", "]"}, {`{"k":`, "}"}, {"[{\"\xffk\":", "}]"}} {
+			for _, inner := range []string{"[\"x\xffy\"]", "{\"n\xff\":\"v\xfe\"}", "\"s\xff\""} {
+				n := lv
+				if len(wrap[0]) > 6 {
+					n = lv / 2
+				}
+				if inner[0] != '"' {
+					n-- // the innermost container is one more level
+				}
+				text := []byte(strings.Repeat(wrap[0], n) + inner + strings.Repeat(wrap[1], n))
+				checkCompatTree(r, text)
+				deepN++
+			}
+		}
+	}
+	for _, lv := range []int{12000, 30000} {
+		if !handBuiltDeepOK(lv) {
+			r.Violation(eng.Replay{Engine: "trees", Entry: "StdLibCompatibleSlice/Map", Sig: fmt.Sprintf("hand-built-depth-%d", lv), Expected: "every string and key converted at every depth", Got: "result differs from the reference conversion",
+				Extra: map[string]interface{}{"hand_built_depth": lv}})
+		}
+		deepN++
+	}
+	r.Set("deep_trees", deepN)
+	n += int64(deepN)
 	r.Set("tree_texts", int(n))
 	r.Set("tree_key_collisions_skipped", int(collisions))
 	return int(n)
+}
+
+// handBuiltDeepOK converts a hand-built tree lv levels deep (alternating arrays and objects with
+// invalid bytes in every key and in the innermost string) and compares with the reference.
+func handBuiltDeepOK(lv int) bool {
+	var v interface{} = "x\xffy"
+	for i := 0; i < lv; i++ {
+		if i%2 == 0 {
+			v = []interface{}{v}
+		} else {
+			v = map[string]interface{}{"k\xff": v}
+		}
+	}
+	var got interface{}
+	if x, ok := v.([]interface{}); ok {
+		got = rjson.StdLibCompatibleSlice(x)
+	} else {
+		got = rjson.StdLibCompatibleMap(v.(map[string]interface{}))
+	}
+	want, _ := ref.SanitizeTree(v)
+	return ref.SameTree(got, want)
 }
 
 func mutateTree(v interface{}) {
@@ -311,6 +365,12 @@ func checkCompatTree(r *eng.Run, text []byte) (collided bool) {
 		return collided
 	}
 	rp := func(bad, exp, g string) {
+		if len(exp) > 600 {
+			exp = exp[:300] + " ... " + exp[len(exp)-300:]
+		}
+		if len(g) > 600 {
+			g = g[:300] + " ... " + g[len(g)-300:]
+		}
 		r.Violation(eng.Replay{Engine: "trees", Entry: "StdLibCompatibleSlice/Map", Sig: bad + "/" + shortSig(text), InputB64: text, Expected: exp, Got: g})
 	}
 	if !ref.SameTree(v, frozen) {
